@@ -1267,7 +1267,13 @@ func runC02recvModes(cfg config, rep *hx.Report, cf *hx.CasesFile, n int, modes 
 		if mode == "wild" && len(c.files) == 0 {
 			mode, c.mode = "honest", "honest"
 		}
+		if only := os.Getenv("VERIF_C02_ONLY"); only != "" && only != fmt.Sprint(c.id) {
+			continue // debugging aid: re-run one case of the sequence
+		}
 		res := runC02case(base, c, rep)
+		if os.Getenv("VERIF_C02_ONLY") != "" {
+			fmt.Fprintf(os.Stderr, "case %d: res=%d err=%q fault=%s desync=%q\n  events=%v\n", c.id, res.res, res.retErr, res.fault, res.desync, res.evs)
+		}
 		rep.Evaluations++
 		rep.Count("recv:" + mode)
 		if res.fault != "" {
